@@ -1,1 +1,17 @@
-fn main(){}
+//! C15 (C): the only content of this crate is the trait-bound assertion; failing to compile is the verdict.
+use espada::card::Card;
+use espada::evaluator::{FlopExhaustiveEvaluator, MadeHand, Showdown};
+use espada::hand_range::{CardPair, HandRange, HandRangeToken};
+
+fn ok<T: Send + Sync>() {}
+
+fn main() {
+    ok::<FlopExhaustiveEvaluator>();
+    ok::<<FlopExhaustiveEvaluator as IntoIterator>::IntoIter>();
+    ok::<HandRange>();
+    ok::<HandRangeToken>();
+    ok::<CardPair>();
+    ok::<Card>();
+    ok::<MadeHand>();
+    ok::<Showdown>();
+}
